@@ -19,7 +19,7 @@ def configs(ctx):
 
 
 def run(ctx):
-    fam.run_family(ctx, PROP, configs(ctx), max_exec=ctx.pick(60_000, 2_000_000), budget_s=ctx.pick(150, 3000))
+    fam.run_family(ctx, PROP, configs(ctx), max_exec=ctx.pick(60_000, 2_000_000), budget_s=ctx.pick(1500, 6000))
     # the real stack end to end (vcluster), default schedule plus every single schedule deviation
     from vf import vc_explore
 
